@@ -408,7 +408,7 @@ impl<T: ObjectStore> ObjectStore for MetaStore<T> {
     }
 
     async fn get_opts(&self, location: &Path, options: GetOptions) -> Result<GetResult> {
-        let mut retried = false;
+        let mut retries = 0;
         loop {
             let meta = self.inner.get_meta(location).await?;
             let mut options = options.clone();
@@ -441,10 +441,13 @@ impl<T: ObjectStore> ObjectStore for MetaStore<T> {
                     // The cached pointer — generational or legacy — may be
                     // stale after a concurrent overwrite: the generation was
                     // replaced and reclaimed, or the legacy payload was
-                    // migrated away. Re-resolve once.
-                    if !retried {
-                        retried = true;
-                        self.inner.refresh_meta(location).await?;
+                    // migrated away. Re-resolve and follow the commit point
+                    // while it keeps moving (see `pointer_moved`).
+                    if self
+                        .inner
+                        .pointer_moved(location, meta.generation.as_deref(), &mut retries)
+                        .await?
+                    {
                         continue;
                     }
                     return Err(Error::NotFound {
@@ -462,7 +465,7 @@ impl<T: ObjectStore> ObjectStore for MetaStore<T> {
             return Ok(Vec::new());
         }
 
-        let mut retried = false;
+        let mut retries = 0;
         loop {
             let meta = self.inner.get_meta(location).await?;
             validate_ranges("MetaStore", ranges, meta.size)?;
@@ -473,9 +476,11 @@ impl<T: ObjectStore> ObjectStore for MetaStore<T> {
             match self.inner.store.get_ranges(&payload_path, ranges).await {
                 Ok(rt) => return Ok(rt),
                 Err(Error::NotFound { source, .. }) => {
-                    if !retried {
-                        retried = true;
-                        self.inner.refresh_meta(location).await?;
+                    if self
+                        .inner
+                        .pointer_moved(location, meta.generation.as_deref(), &mut retries)
+                        .await?
+                    {
                         continue;
                     }
                     return Err(Error::NotFound {
